@@ -20,6 +20,12 @@ CLAIMED = {
     ),
 }
 
+CLAIMED["C07"] = dict(
+    text="Bounded symbolic execution of the real scanners/consumers: for every unterminated stream of N symbolic bytes delivered in reads of <=R bytes at symbolic cut positions, the bytes the receiver can still hold never exceed L+R+S before a limit error surfaces (separator-framed base class, StringLineSerializer, JSON line and raw mode, file-based base class incl. broad expected_load_error); and every frame safely under the limit (incl. exactly at the margin) is delivered for every chunking on both receive paths.",
+    design="4/C07",
+    technique="symbolic execution of real code (CrossHair+z3): byte contents, cut positions symbolic; per-path concrete validation",
+)
+
 NOT_APPLICABLE = {
     "C08": "TLS byte-transparency/encryption is decided inside OpenSSL's record layer (C code, cryptography): it cannot be executed symbolically by any installed engine; stubbing it would verify the stub, and running real OpenSSL realises every symbolic size (degenerates to concrete enumeration). See DESIGN.md section 5.",
     "C09": "Whether a cut at a byte offset of a real ciphertext stream yields SSLEOFError / SSLZeroReturnError / a protocol error is OpenSSL's partial-record parsing, not encodable; the EasyNetwork part is a three-way exception mapping. See DESIGN.md section 5.",
